@@ -6,7 +6,7 @@ Open Scope Z_scope.
 (* State::new: broadcast(1) (one active receiver), rx.deactivate() = inactive += 1, then the
    active receiver is dropped *)
 Example b_new_is_deactivated :
-  b_droprx (BChan [] 0 1 1 false 0) (BRx 0 None) = (b_new, ODone).
+  b_droprx (BChan [] 0 1 1 false 0 1) (BRx 0 None) = (b_new, ODone).
 Proof. reflexivity. Qed.
 
 Definition lst_ok (b : bool) (n : Z) (epoch : nat) (r : brx) : Prop :=
@@ -15,17 +15,21 @@ Definition lst_ok (b : bool) (n : Z) (epoch : nat) (r : brx) : Prop :=
   | None => True
   end.
 
-Definition Rs (b : bool) (c : bchan) (l : list (option brx)) (a : achan) (m : list (option Z)) : Prop :=
+(* h = number of live State handles (each holds a Sender and an InactiveReceiver); b = "some
+   handle is alive" *)
+Definition alive (h : nat) : bool := negb (Nat.eqb h 0).
+Definition Rs (b : bool) (h : nat) (c : bchan) (l : list (option brx)) (a : achan) (m : list (option Z)) : Prop :=
   map (option_map r_pos) l = m /\ a_open a = b /\ b_closed c = negb b /\
-  b_inactive c = (if b then 1 else 0)%nat /\
+  (b = alive h) /\
   b_head c + Z.of_nat (length (b_queue c)) = a_n a /\ b_rx c = a_rx a /\ a_rx a = nlive m /\
   bounded (a_n a) m /\
   (b_queue c = [] /\ nbehind (a_n a) m = 0%nat \/
    b_queue c = [(a_last a, nbehind (a_n a) m)] /\ (1 <= nbehind (a_n a) m)%nat) /\
-  (forall s r, nth_error l s = Some (Some r) -> lst_ok b (a_n a) (b_epoch c) r).
+  (forall s r, nth_error l s = Some (Some r) -> lst_ok b (a_n a) (b_epoch c) r) /\
+  (a_tx a = h /\ b_tx c = h /\ b_inactive c = h).
 
-Ltac prjs := cbn [b_queue b_head b_rx b_inactive b_closed b_epoch r_pos r_lst a_n a_last a_rx a_open
-  ch_poll ch_set ch_sub ch_droprx ch_close ch_new chan rx smol_impl abs_impl fst snd] in *.
+Ltac prjs := cbn [b_queue b_head b_rx b_inactive b_closed b_epoch b_tx r_pos r_lst a_n a_last a_rx a_tx
+  ch_poll ch_set ch_sub ch_droprx ch_clone ch_droptx ch_new chan rx smol_impl abs_impl fst snd] in *.
 
 (* ---- try_recv_at in the three situations *)
 Lemma recv_at_over c pos : pos < b_head c ->
@@ -45,8 +49,8 @@ Qed.
 (* the channel after a receiver took the single queued message with w waiters *)
 Definition b_taken (c : bchan) (v : N) (w : nat) : bchan :=
   if Nat.eqb (w - 1) 0
-  then BChan [] (b_head c + 1) (b_rx c) (b_inactive c) (b_closed c) (b_epoch c)
-  else BChan [(v, (w - 1)%nat)] (b_head c) (b_rx c) (b_inactive c) (b_closed c) (b_epoch c).
+  then BChan [] (b_head c + 1) (b_rx c) (b_inactive c) (b_closed c) (b_epoch c) (b_tx c)
+  else BChan [(v, (w - 1)%nat)] (b_head c) (b_rx c) (b_inactive c) (b_closed c) (b_epoch c) (b_tx c).
 
 Lemma recv_at_front c v w : b_queue c = [(v, w)] -> (1 <= w)%nat ->
   b_try_recv_at c (b_head c) = (b_taken c v w, b_head c + 1, TOk v).
@@ -119,10 +123,10 @@ Qed.
 Lemma map_livef_optmap A B (f : A -> B) l : map livef (map (option_map f) l) = map livef l.
 Proof. induction l as [|[x|] l IH]; cbn; now rewrite ?IH. Qed.
 
-Lemma Rs_shape b c l a m : Rs b c l a m -> map livef l = map livef m.
+Lemma Rs_shape b h c l a m : Rs b h c l a m -> map livef l = map livef m.
 Proof. intros (<- & _). now rewrite map_livef_optmap. Qed.
 
-Lemma Rs_init : Rs true (ch_new smol_impl) [] (ch_new abs_impl) [].
+Lemma Rs_init : Rs true 1 (ch_new smol_impl) [] (ch_new abs_impl) [].
 Proof.
   cbn. unfold Rs; cbn. repeat split; auto; try lia.
   - intros s k H. destruct s; discriminate.
@@ -133,12 +137,12 @@ Lemma nth_map_pos l s r : nth_error l s = Some (Some r) ->
   nth_error (map (option_map r_pos) l) s = Some (Some (r_pos r)).
 Proof. intros H. erewrite map_nth_error; eauto. reflexivity. Qed.
 
-Lemma Rs_set c l a m v : Rs true c l a m ->
-  Rs true (fst (ch_set smol_impl c v)) l (fst (ch_set abs_impl a v)) m /\
+Lemma Rs_set h c l a m v : Rs true h c l a m ->
+  Rs true h (fst (ch_set smol_impl c v)) l (fst (ch_set abs_impl a v)) m /\
   snd (ch_set smol_impl c v) = snd (ch_set abs_impl a v).
 Proof.
-  intros (Hm & Ho & Hc & Hi & Hh & Hrx & Hl & Hb & Hq & Hls).
-  destruct c as [q hd rx ina closed ep], a as [an last arx open]; prjs. subst.
+  intros (Hm & Ho & Hc & Hi & Hh & Hrx & Hl & Hb & Hq & Hls & Ha & Ht & Hin).
+  destruct c as [q hd rx ina closed ep tx], a as [an last arx atx]; prjs. unfold a_open in *; cbn [a_tx] in *. subst.
   unfold b_set, b_try_broadcast, a_set; prjs. cbn [negb].
   destruct (Nat.eqb (nlive (map (option_map r_pos) l)) 0) eqn:E.
   - cbn [b_await_active fst snd]. split; [|reflexivity]. unfold Rs; prjs. repeat split; auto.
@@ -168,12 +172,12 @@ Proof.
     injection H as <-. auto.
 Qed.
 
-Lemma Rs_sub c l a m : Rs true c l a m ->
-  Rs true (fst (ch_sub smol_impl c)) (l ++ [Some (snd (ch_sub smol_impl c))])
+Lemma Rs_sub h c l a m : Rs true h c l a m ->
+  Rs true h (fst (ch_sub smol_impl c)) (l ++ [Some (snd (ch_sub smol_impl c))])
           (fst (ch_sub abs_impl a)) (m ++ [Some (snd (ch_sub abs_impl a))]).
 Proof.
-  intros (Hm & Ho & Hc & Hi & Hh & Hrx & Hl & Hb & Hq & Hls).
-  destruct c as [q hd rx ina closed ep], a as [an last arx open]; prjs. subst.
+  intros (Hm & Ho & Hc & Hi & Hh & Hrx & Hl & Hb & Hq & Hls & Ha & Ht & Hin).
+  destruct c as [q hd rx ina closed ep tx], a as [an last arx atx]; prjs. unfold a_open in *; cbn [a_tx] in *. subst.
   unfold b_subscribe, a_sub; prjs.
   unfold Rs; prjs. rewrite map_app, nlive_app, nbehind_app, bit_ltb_false by lia. cbn [map option_map r_pos].
   repeat split; auto; try lia.
@@ -195,13 +199,13 @@ Proof.
   intros [Le H] W. apply H. destruct (Nat.ltb_spec e (b_epoch c)); [discriminate|lia].
 Qed.
 
-Lemma Rs_poll b c l a m s r q : Rs b c l a m ->
+Lemma Rs_poll b h c l a m s r q : Rs b h c l a m ->
   nth_error l s = Some (Some r) -> nth_error m s = Some (Some q) ->
-  Rs b (fst (fst (ch_poll smol_impl c r))) (upd l s (Some (snd (fst (ch_poll smol_impl c r)))))
+  Rs b h (fst (fst (ch_poll smol_impl c r))) (upd l s (Some (snd (fst (ch_poll smol_impl c r)))))
        (fst (fst (ch_poll abs_impl a q))) (upd m s (Some (snd (fst (ch_poll abs_impl a q))))) /\
   snd (ch_poll smol_impl c r) = snd (ch_poll abs_impl a q).
 Proof.
-  intros (Hm & Ho & Hc & Hi & Hh & Hrx & Hl & Hb & Hq & Hls) El Em.
+  intros (Hm & Ho & Hc & Hi & Hh & Hrx & Hl & Hb & Hq & Hls & Ha & Ht & Hin) El Em.
   pose proof (nth_map_pos _ _ _ El) as Ep. rewrite Hm, Em in Ep. injection Ep as ->.
   pose proof (Hls _ _ El) as Lr. pose proof (Hb _ _ Em) as Lb.
   prjs. unfold a_poll.
@@ -236,19 +240,19 @@ Proof.
         (repeat split; auto; apply lst_ok_upd; auto; intros r' [= <-]; unfold lst_ok; cbn [r_lst r_pos]; auto).
 Qed.
 
-Lemma close_channel_noop b c : b_closed c = negb b -> b_inactive c = (if b then 1 else 0)%nat ->
+Lemma close_channel_noop b h c : b_closed c = negb b -> b = alive h -> b_inactive c = h ->
   b_close_channel c = c.
 Proof.
-  intros Hc Hi. unfold b_close_channel, b_close. rewrite Hc, Hi.
-  destruct b; cbn; [now rewrite andb_false_r|]. destruct (Nat.eqb (b_rx c) 0); reflexivity.
+  intros Hc Hb Hi. unfold b_close_channel, b_close. rewrite Hc, Hi. subst b. unfold alive.
+  destruct h; cbn; [|now rewrite andb_false_r]. destruct (Nat.eqb (b_rx c) 0); reflexivity.
 Qed.
 
-Lemma Rs_drop b c l a m s r q : Rs b c l a m ->
+Lemma Rs_drop b h c l a m s r q : Rs b h c l a m ->
   nth_error l s = Some (Some r) -> nth_error m s = Some (Some q) ->
-  Rs b (fst (ch_droprx smol_impl c r)) (upd l s None) (fst (ch_droprx abs_impl a q)) (upd m s None) /\
+  Rs b h (fst (ch_droprx smol_impl c r)) (upd l s None) (fst (ch_droprx abs_impl a q)) (upd m s None) /\
   snd (ch_droprx smol_impl c r) = snd (ch_droprx abs_impl a q).
 Proof.
-  intros (Hm & Ho & Hc & Hi & Hh & Hrx & Hl & Hb & Hq & Hls) El Em.
+  intros (Hm & Ho & Hc & Hi & Hh & Hrx & Hl & Hb & Hq & Hls & Ha & Ht & Hin) El Em.
   pose proof (nth_map_pos _ _ _ El) as Ep. rewrite Hm, Em in Ep. injection Ep as ->.
   pose proof (Hb _ _ Em) as Lb. pose proof (nlive_upd_none _ _ _ Em) as Ln.
   prjs. unfold a_droprx, b_droprx.
@@ -264,7 +268,7 @@ Proof.
     rewrite bit_ltb_true in U by lia.
     cbn [fst snd]. split; [|reflexivity].
     unfold b_taken. destruct (Nat.eqb_spec (nbehind (a_n a) m - 1) 0) as [E0|E0]; prjs;
-      (rewrite (close_channel_noop b) by (prjs; auto); unfold Rs; prjs; rewrite map_upd, Hm; cbn [option_map];
+      (rewrite (close_channel_noop b h) by (prjs; auto); unfold Rs; prjs; rewrite map_upd, Hm; cbn [option_map];
        repeat split; auto; try lia;
        try (apply bounded_upd; auto; discriminate);
        try (rewrite ?Q; cbn; lia)).
@@ -274,21 +278,39 @@ Proof.
     rewrite s_drain_uptodate by lia. cbn [fst snd]. split; [|reflexivity].
     pose proof (nbehind_upd (a_n a) m s (r_pos r) None Em) as U. cbn [behind1] in U.
     rewrite bit_ltb_false in U by lia.
-    rewrite (close_channel_noop b) by (prjs; auto). unfold Rs; prjs. rewrite map_upd, Hm. cbn [option_map].
+    rewrite (close_channel_noop b h) by (prjs; auto). unfold Rs; prjs. rewrite map_upd, Hm. cbn [option_map].
     repeat split; auto; try lia.
     + apply bounded_upd; auto; discriminate.
     + replace (nbehind (a_n a) (upd m s None)) with (nbehind (a_n a) m) by lia. exact Hq.
 Qed.
 
-Lemma Rs_close c l a m : Rs true c l a m -> Rs false (ch_close smol_impl c) l (ch_close abs_impl a) m.
+Lemma Rs_clone h c l a m : Rs true (S h) c l a m ->
+  Rs true (S (S h)) (ch_clone smol_impl c) l (ch_clone abs_impl a) m.
 Proof.
-  intros (Hm & Ho & Hc & Hi & Hh & Hrx & Hl & Hb & Hq & Hls).
-  destruct c as [q hd rx ina closed ep], a as [an last arx open]; prjs. subst.
-  unfold b_drop_state, b_close; prjs. cbn [negb Nat.sub].
-  unfold b_close_channel, b_close; prjs. rewrite Tauto.if_same.
-  unfold Rs, a_close; prjs. repeat split; auto.
-  intros s r H. specialize (Hls s r H). unfold lst_ok in *.
-  destruct (r_lst r) as [e|]; auto. destruct Hls as [Le _]. split; [lia|]. intros ->. lia.
+  intros (Hm & Ho & Hc & Hi & Hh & Hrx & Hl & Hb & Hq & Hls & Ha & Ht & Hin).
+  unfold Rs; cbn. unfold a_open in *; cbn. rewrite Ha, Ht, Hin. repeat split; auto.
+Qed.
+
+Lemma lst_ok_epoch b b' n ep r : lst_ok b n ep r -> lst_ok b' n (S ep) r.
+Proof.
+  unfold lst_ok. destruct (r_lst r) as [e|]; auto. intros [Le _]. split; [lia|]. intros ->. lia.
+Qed.
+
+(* dropping a handle closes the channel only when it was the last one *)
+Lemma Rs_droptx h c l a m : Rs true (S h) c l a m ->
+  Rs (alive h) h (ch_droptx smol_impl c) l (ch_droptx abs_impl a) m.
+Proof.
+  intros (Hm & Ho & Hc & Hi & Hh & Hrx & Hl & Hb & Hq & Hls & Ha & Ht & Hin).
+  destruct c as [q hd rx ina closed ep tx], a as [an last arx atx]; prjs. unfold a_open in *; cbn [a_tx] in *.
+  subst closed tx ina atx. cbn [negb] in *.
+  unfold b_drop_state, a_droptx; prjs. cbn [Nat.sub]. rewrite !Nat.sub_0_r.
+  destruct h as [|h'].
+  - (* the last handle: Sender::drop closes *)
+    cbn [Nat.eqb]. unfold b_close at 1; prjs. unfold b_close_channel, b_close; prjs.
+    rewrite Tauto.if_same. unfold Rs, alive, a_open; prjs. cbn [Nat.eqb negb].
+    repeat split; auto. intros s r H. eapply lst_ok_epoch; eauto.
+  - cbn [Nat.eqb]. unfold b_close_channel; prjs. cbn [Nat.eqb]. rewrite andb_false_r.
+    unfold Rs, alive, a_open; prjs. cbn [Nat.eqb negb]. repeat split; auto.
 Qed.
 
 (* one-shot *)
@@ -347,14 +369,15 @@ Qed.
 
 Theorem smol_refines_abs ops : run smol_impl ops = run abs_impl ops.
 Proof.
-  apply (sim_run smol_impl abs_impl Rs Ros).
-  - exact Rs_shape.
+  apply (sim_run smol_impl abs_impl (fun h => Rs (alive h) h) Ros).
+  - intros; eapply Rs_shape; eauto.
   - exact Rs_init.
   - intros; now apply Rs_set.
   - intros; now apply Rs_sub.
   - intros; eapply Rs_poll; eauto.
   - intros; eapply Rs_drop; eauto.
-  - intros; now apply Rs_close.
+  - intros; now apply Rs_clone.
+  - intros; now apply Rs_droptx.
   - exact Ros_init.
   - intros; now apply Ros_notify.
   - intros; now apply Ros_drop.
